@@ -1130,6 +1130,17 @@ func runC13(c *lib.Ctx) error {
 		back := uint64(rng.Int63n(int64(d)))
 		addD(alpha-back-1, alpha-back-1+d, ts, pickN(), "pts-wrap")
 	}
+	// the splice seconds whose 90 kHz PTS is exactly 0 modulo 2^33 (k*90000 = j*2^33: k = j*2^29; on the
+	// schedule for k = 3*2^29 (offset 36, N = 3) and k = 5*2^29 (offset 40, N = 2)), and their neighbours
+	for _, kn := range [][2]uint64{{3 << 29, 3}, {5 << 29, 2}} {
+		for _, ts := range []uint64{1, 1000, 90000, 15360} {
+			for _, dm := range []int64{-1, 0, 1} {
+				k := uint64(int64(kn[0]) + 60*dm)
+				alpha := (k - 7) * ts
+				addD(alpha-ts, alpha+ts, ts, int(kn[1]), "pts-exactly-zero")
+			}
+		}
+	}
 	// outside the property's domain: other N, long segments, empty/inverted, timescale 0 (panic),
 	// values where the uint64 arithmetic wraps
 	for i := 0; i < 60*scale; i++ {
@@ -1187,6 +1198,20 @@ func runC13(c *lib.Ctx) error {
 		c.Count("payload")
 		if crc32MPEG2(data) != 0 {
 			c.Fail(id, "bad-crc", "CreateSpliceInsertPayload: CRC-32/MPEG-2 over the section is not 0", in)
+		}
+		// the section says what the parameters say (the harness's own reader)
+		// (not for the cancel indicator, which livesim2 never sets: gots writes the remaining fields of the
+		// command although the standard omits them then)
+		if p.SpliceEventCancelIndicator {
+		} else if sec, err := parseSection(data); err != nil {
+			c.Fail(id, "bad-section", "CreateSpliceInsertPayload: "+err.Error(), in)
+		} else {
+			if !p.SpliceImmediateFlag && (sec.TimeSpecified != 1 || sec.PtsTime != p.PtsTime%(1<<33)) {
+				c.Fail(id, "wrong-pts", fmt.Sprintf("CreateSpliceInsertPayload: pts_time %d (time_specified %d), parameter %d", sec.PtsTime, sec.TimeSpecified, p.PtsTime), in)
+			}
+			if sec.EventID != uint64(p.SpliceEventID) || (p.Duration != 0 && (sec.HasDuration != 1 || sec.BreakDuration != p.Duration%(1<<33))) {
+				c.Fail(id, "wrong-fields", fmt.Sprintf("CreateSpliceInsertPayload: event id %d break_duration %d (flag %d), parameters %d / %d", sec.EventID, sec.BreakDuration, sec.HasDuration, p.SpliceEventID, p.Duration), in)
+			}
 		}
 		r.distinct[fmt.Sprint("p", p)] = true
 		r.terms = append(r.terms, fmt.Sprintf("CPayload %d %s %s", idn, paramsTerm(p), lib.Zbytes(data)))
